@@ -28,17 +28,17 @@ import (
 )
 
 type Sym struct {
-	Op    string // const, param, free, global, alloc, fieldaddr, indexaddr, load, field, call, binop, unop, extract, lookup, convert, phi-unknown, zero, struct, next, fn, opaque
-	Args  []*Sym
-	Const constant.Value // Op == const (nil Const + IsNil: nil)
-	IsNil bool
-	Tok   token.Token  // binop / unop
-	Obj   types.Object // field var, callee func, param var, global
-	Idx   int          // extract index
-	Name  string       // printable leaf name
-	Type  types.Type
-	Ver   int // map version for lookups
-	str   string
+	Op     string // const, param, free, global, alloc, fieldaddr, indexaddr, load, field, call, binop, unop, extract, lookup, convert, phi-unknown, zero, struct, next, fn, opaque
+	Args   []*Sym
+	Const  constant.Value // Op == const (nil Const + IsNil: nil)
+	IsNil  bool
+	Tok    token.Token  // binop / unop
+	Obj    types.Object // field var, callee func, param var, global
+	Idx    int          // extract index
+	Name   string       // printable leaf name
+	Type   types.Type
+	Ver    int // map version for lookups
+	str    string
 	Fields map[string]*Sym // Op == struct
 }
 
